@@ -14,7 +14,7 @@ import subprocess
 import sys
 
 V = "/verif"
-WT = "/tmp/seedverify"
+WT = os.environ.get("SEEDVERIFY_WT", "/tmp/seedverify")
 
 
 def sh(cmd, cwd=None, timeout=3600):
@@ -44,7 +44,7 @@ def build_cmd(demo_src):
 
 
 def run_demo(src_dir, tag):
-    d = "/tmp/seedverify_demo_%s" % tag
+    d = "%s_demo_%s" % (WT, tag)
     shutil.rmtree(d, ignore_errors=True)
     shutil.copytree(src_dir, d, ignore=shutil.ignore_patterns("demo", "demo_p", "demo_mut", "*.o", "a.out"))
     cmd = build_cmd(os.path.join(d, "demo.cpp"))
